@@ -1130,6 +1130,10 @@ func run(c *vh.Ctx) error {
 		res.Probes = append(res.Probes, vh.Probe{ID: "F-C04a", Reproduced: forged > 0,
 			What: fmt.Sprintf("Server.verifyPriority accepted %d forged priorities (fixed finding)", forged)})
 	}
+	// VRF-U observed on the real VRF: forging prover + byte alternatives
+	if h.err == nil {
+		h.vrfuStream(c.N(14, 250) * mult)
+	}
 	// the live prover path: SortitionManager cache under adversarial query / clear orders
 	if h.err == nil {
 		h.mgrStream(c.N(60, 700) * mult)
